@@ -234,7 +234,8 @@ def distance_bin(G):
     Lengths on the main diagonal are set to 0.
     Algorithm: Algebraic shortest paths.
     '''
-    G = binarize(G, copy=True)
+    # (float: the matrix products below wrap around in narrow integer types)
+    G = binarize(G, copy=True).astype(float)
     D = np.eye(len(G))
     n = 1
     nPATH = G.copy()  # n path matrix
@@ -703,6 +704,8 @@ def reachdist(CIJ, ensure_binary=True):
 
     if ensure_binary:
         CIJ = binarize(CIJ)
+    # (float: D counts up to n + 1, which does not fit narrow integer types)
+    CIJ = np.asarray(CIJ, dtype=float)
 
     R = CIJ.copy()
     D = CIJ.copy()
